@@ -199,4 +199,46 @@ def run(ctx):
     per = vworker.run_versions("h_c12", "worker", vs, args)
     cc.merge_results(R, per, "C12")
     R.extra["versions"] = vs
+    charset_case(R)
     return R.to_json()
+
+
+def charset_case(R):
+    """a save that succeeds re-loads to the same strings also when the charset SETTINGS are changed at run time (whatever the
+    library makes of such a change, writer and reader have to agree): one fresh process per charset"""
+    import subprocess, sys, os, tempfile, json
+    child = (
+        "import sys, io, json, contextlib, os\n"
+        "from AoE2ScenarioParser import settings\n"
+        "from AoE2ScenarioParser.scenarios.aoe2_de_scenario import AoE2DEScenario\n"
+        "out = {}\n"
+        "with contextlib.redirect_stdout(io.StringIO()):\n"
+        "    s = AoE2DEScenario.from_default()\n"
+        "    settings.MAIN_CHARSET = sys.argv[2]\n"
+        "    texts = ['plain ascii', 'h\\u00e9llo w\\u00f6rld', '\\u041f\\u0440\\u0438\\u0432\\u0435\\u0442']\n"
+        "    s.message_manager.instructions, s.message_manager.hints, s.message_manager.victory = texts\n"
+        "    t = s.trigger_manager.add_trigger(texts[2])\n"
+        "    fn = os.path.join(sys.argv[1], 'charset.aoe2scenario')\n"
+        "    try:\n"
+        "        s.write_to_file(fn)\n"
+        "        s2 = AoE2DEScenario.from_file(fn)\n"
+        "        got = [s2.message_manager.instructions, s2.message_manager.hints, s2.message_manager.victory, s2.trigger_manager.triggers[-1].name]\n"
+        "        out = {'save': 'ok', 'same': got == texts + [texts[2]], 'got': got}\n"
+        "    except Exception as e:\n"
+        "        out = {'save': 'error:' + type(e).__name__}\n"
+        "sys.stderr.write('RESULT ' + json.dumps(out) + '\\n')\n")
+    for cs in ("cp1251", "latin-1", "utf-16"):
+        d = tempfile.mkdtemp(prefix="c12cs_")
+        try:
+            pr = subprocess.run([sys.executable, "-c", child, d, cs], capture_output=True, text=True, timeout=600, cwd=d,
+                                env={**os.environ, "PYTHONPATH": common.REPO, "PYTHONDONTWRITEBYTECODE": "1"})
+            line = next((l for l in pr.stderr.splitlines() if l.startswith("RESULT ")), None)
+            res = json.loads(line[7:]) if line else {"save": "crash"}
+            R.case(key=f"charset:{cs}", nontrivial=True, tags=("settings:charset-at-run-time",))
+            if res.get("save") == "ok" and not res.get("same"):
+                R.violation({"clause": "reload-differs", "settings": "MAIN_CHARSET changed at run time", "charset": cs},
+                            f"settings.MAIN_CHARSET = {cs!r} set after import: the save succeeds but the strings re-load as {res.get('got')}",
+                            {"op": "charset", "charset": cs})
+        finally:
+            import shutil
+            shutil.rmtree(d, ignore_errors=True)
